@@ -643,7 +643,8 @@ const PATHS: &[&str] = &[
 const LAYERS: &[&str] = &["", "layer", "layer(a)", "layer(a.b)", "layer(my-layer.sub_1.x)"];
 /// the last entry contains `.class` selectors and is used only without a class prefix
 const SUPPORTS: &[&str] = &["", "supports(display: grid)", "supports(not (display: grid))", "supports((display: flex) and (not (display: grid)))", "supports(selector(a > b))", "supports(--x: y)", "supports(selector(.x .y:not(.z)))"];
-const MEDIA: &[&str] = &["", "screen", "print and (min-width: 10px)", "screen, print", "(min-width: 100px) and (max-width: 200px)", "not all and (monochrome)", "only screen and (orientation: landscape)", "(width >= 600px)", "(400px <= width <= 700px)", "screen and (min-resolution: 2dppx), (aspect-ratio: 16/9)"];
+const MEDIA: &[&str] = &["", "screen", "print and (min-width: 10px)", "screen, print", "(min-width: 100px) and (max-width: 200px)", "not all and (monochrome)", "only screen and (orientation: landscape)", "(width >= 600px)", "(400px <= width <= 700px)", "screen and (min-resolution: 2dppx), (aspect-ratio: 16/9)", "all and (min-width: 10px)", "all, print", "ALL and (color)"];
+// (a lone `all` is not enumerated: leaving its wrapper out would be an equivalent rewrite, and the oracle asks for the wrapper)
 const SEPS: &[&str] = &[" ", "\n  ", " /*c*/ ", ""];
 const RULES: &[&str] = &[
     ".a{color:red}", ".b .c>.d{width:2rpx;margin:calc(1px + 2rpx)}", "@media print{.e{top:0}}", "@font-face{font-family:x;src:url(f.woff)}",
